@@ -1208,8 +1208,7 @@ def oracle_hostile_names(m: onnx.ModelProto, seed: int, variants=None) -> list[t
             HOSTILE_HIST[key] = HOSTILE_HIST.get(key, 0) + 1
             continue
         try:
-            # onnxruntime ABORTS the process on some invalid models (index assertion): the checker judges first
-            onnx.checker.check_model(built, full_check=True)
+            # (onnxruntime aborts the process on some invalid models: it runs in a child process, see ort_run)
             got = dict(zip([o.name for o in built.graph.output], ort_run(built, dict(zip(arg_keys, [vals[n] for n in ins])))))
         except Exception as e:  # noqa: BLE001
             fails.append(("invalid-model-under-hostile-names", f"{variant}: build accepted names {arg_keys} -> {res_keys} but onnxruntime refuses the model: {str(e)[:200]}"))
